@@ -432,13 +432,27 @@ pub struct Spell {
     pub upper_prob: u32, // out of 100: whole-token upper-casing
     pub radix_mix: bool,
     pub ws_mix: bool,
+    /// pick among synonym mnemonics (jz/je, shl/sal, repe/repz); off by default because synonyms
+    /// legitimately emit different (equivalent) IR spellings
+    pub syn_mix: bool,
 }
 impl Spell {
     pub fn plain() -> Spell {
-        Spell { rng: None, upper_prob: 0, radix_mix: false, ws_mix: false }
+        Spell { rng: None, upper_prob: 0, radix_mix: false, ws_mix: false, syn_mix: false }
     }
     pub fn random(rng: Rng) -> Spell {
-        Spell { rng: Some(rng), upper_prob: 50, radix_mix: true, ws_mix: true }
+        Spell { rng: Some(rng), upper_prob: 50, radix_mix: true, ws_mix: true, syn_mix: false }
+    }
+    pub fn random_syn(rng: Rng) -> Spell {
+        let mut s = Spell::random(rng);
+        s.syn_mix = true;
+        s
+    }
+    fn coin(&mut self) -> bool {
+        if !self.syn_mix {
+            return false;
+        }
+        self.rng.as_mut().map(|r| r.chance(1, 2)).unwrap_or(false)
     }
     pub fn kw(&mut self, s: &str) -> String {
         if let Some(r) = &mut self.rng {
@@ -638,7 +652,7 @@ impl Ins {
             Ins::Sh(op, d, cnt) => {
                 let name = match op {
                     Sh::Shl => {
-                        let pick = sp.rng.as_mut().map(|r| r.chance(1, 2)).unwrap_or(false);
+                        let pick = sp.coin();
                         if pick {
                             "shl"
                         } else {
@@ -670,11 +684,11 @@ impl Ins {
                     Rep::None => String::new(),
                     Rep::Rep => format!("{}{}", sp.kw("rep"), sp.sp()),
                     Rep::Repe => {
-                        let alt = sp.rng.as_mut().map(|r| r.chance(1, 2)).unwrap_or(false);
+                        let alt = sp.coin();
                         format!("{}{}", sp.kw(if alt { "repz" } else { "repe" }), sp.sp())
                     }
                     Rep::Repne => {
-                        let alt = sp.rng.as_mut().map(|r| r.chance(1, 2)).unwrap_or(false);
+                        let alt = sp.coin();
                         format!("{}{}", sp.kw(if alt { "repnz" } else { "repne" }), sp.sp())
                     }
                 };
@@ -682,7 +696,7 @@ impl Ins {
             }
             Ins::J(j, l) => {
                 let sps = j.spellings();
-                let k = sp.rng.as_mut().map(|r| r.below(sps.len())).unwrap_or(0);
+                let k = if sp.syn_mix { sp.rng.as_mut().map(|r| r.below(sps.len())).unwrap_or(0) } else { 0 };
                 format!("{}{}{}", sp.kw(sps[k]), sp.sp(), l)
             }
             Ins::Call(p) => format!("{}{}{}", sp.kw("call"), sp.sp(), p),
